@@ -23,11 +23,11 @@ NOTES = ("Static analysis only: every check re-extracts facts from /repo's worki
 CLAIMED = {
     "C01": dict(
         engine="E1+E3",
-        technique="static analysis: whole-program who-writes + CFG guard dominance on Parameter::value_/constraint_; abstract interpretation of IntervalConstraint over all order types; parallel-initialiser agreement of the half-line constructor; shared copy rule",
+        technique="static analysis: whole-program who-writes + CFG guard dominance on Parameter::value_/constraint_; abstract interpretation of IntervalConstraint over all order types; parallel-initialiser agreement of the half-line constructor; shared copy rule; who-writes rule on the two bound members (no value moves from one bound to the other)",
         level=("Static rules over the resolved program decide: every store to a parameter's value/constraint in the whole library is a checked write, pair copy, guarded install or "
                "unconstrained initialisation; the constructor validates; no effect precedes a rejecting throw; the interval algebra (membership, inclusion, intersection, emptiness, limits) "
                "equals its set-theoretic definition on every order type of bounds x flags (exhaustive truth table by abstract interpretation of the syntax tree); AutoParameter stores the accepted limit; "
-               "bracket tables of the description syntax agree. This covers all inputs and histories for those clauses, which a sampled test cannot. The half-line constructor gives the finite end the caller's inclusion flag and leaves the infinite end open."),
+               "bracket tables of the description syntax agree. This covers all inputs and histories for those clauses, which a sampled test cannot. The half-line constructor gives the finite end the caller's inclusion flag and leaves the infinite end open. The bounds are stored as given: a reversed pair stays the empty interval."),
         note=TB + "Not decided: floating-point spacing of limit+-1e-12, numeric parsing inside readDescription, constraints mutated after installation through a shared pointer."),
 }
 
@@ -57,10 +57,10 @@ CLAIMED["C03"] = dict(
 
 CLAIMED["C15"] = dict(
     engine="E6+E1",
-    technique="static analysis: interprocedural cache-invalidation completeness (dependency writes vs reachable topologyHasChanged_() per public entry point), override/flag-source checks, call-graph reachability from rootAt, orientation agreement between the edge table and the node table written by one function (convention read from the link helpers), who-reads rule on the id allocators",
+    technique="static analysis: interprocedural cache-invalidation completeness (dependency writes vs reachable topologyHasChanged_() per public entry point), override/flag-source checks, call-graph reachability from rootAt, orientation agreement between the edge table and the node table written by one function (convention read from the link helpers), who-reads and who-writes rules on the id allocators (never compared with counts; assigned only under a comparison with their current value)",
     level=("Static rules decide, for every history: each public entry point of the tree/DAG containers and their observers that writes a dependency of the cached validity predicate reaches the virtual "
            "invalidator afterwards; the derived invalidator really overrides the base virtual and clears the flag; the flag only becomes true from isTree()/isDA(); re-rooting cannot erase edges, notify "
-           "deletions or allocate edge ids on the graph itself; the edge reversal of re-rooting records the edge with the same orientation in both tables; the id allocators are never used as element counts. "
+           "deletions or allocate edge ids on the graph itself; the edge reversal of re-rooting records the edge with the same orientation in both tables; the id allocators are never used as element counts and never move backwards. "
            "This is the 'regardless of earlier queries' clause, which no finite test history settles."),
     note=TB + "Not decided: father/sons/path/MRCA definitions, correctness of isTree()/isDA(), writes invalidated on some paths only (reported UNKNOWN), DAG rootedness cache.")
 
@@ -91,14 +91,14 @@ CLAIMED["C09"] = dict(
 
 CLAIMED["C18"] = dict(
     engine="E8+E1",
-    technique="static analysis: kind typing (MEAN/RATE/SCALE/VARIANCE/STDDEV/SHAPE with 1/x, sqrt, square conversions) of arguments reaching std distribution constructors and RandomTools samplers, conventions inferred from the library's cumulative functions and @param docs; guard dominance for refusals; who-uses rule for the random engine",
+    technique="static analysis: kind typing (MEAN/RATE/SCALE/VARIANCE/STDDEV/SHAPE with 1/x, sqrt, square conversions) of arguments reaching std distribution constructors and RandomTools samplers, conventions inferred from the library's cumulative functions and @param docs; guard dominance for refusals; who-uses rule for the random engine; overload-resolution rule for picks on the with-replacement branch of getSample",
     level=("Static rules decide, independent of seed and sample: a mean argument reaches the std sampler as a mean, a rate as a rate, a variance as a variance, in RandomTools and in every distribution's randC(); "
-           "emptiness and over-long requests are refused before any draw; every draw in the library is driven by RandomTools::DEFAULT_GENERATOR, which setSeed seeds, and no other randomness source exists."),
+           "emptiness and over-long requests are refused before any draw; every draw in the library is driven by RandomTools::DEFAULT_GENERATOR, which setSeed seeds, and no other randomness source exists; a pick made for sampling with replacement resolves to a pickOne that cannot remove elements."),
     note=TB + "Not decided: every distributional statement (goodness of fit), multinomial and weighted picks, contingency-table margins, p-value range; weighted picks assume size(w) == size(v); Gamma randC tests the un-shifted draw against the domain (noted).")
 
 CLAIMED["C16"] = dict(
     engine="E4+E1",
-    technique="static analysis (necessary conditions): npos typestate on std::string search results with guard dominance, unsigned 'size()-c' underflow rule, feasible state-preserving-cycle search and zero-stride idiom on every loop, interprocedural division-by-parameter rule, throw-type typing, look-ahead re-test rule on counted loops, emptiness typestate on tokenizer token lists and on local containers (path search avoiding every filling statement); map::at presence rule; unsigned-variable loop bounds; argument-swap rule",
+    technique="static analysis (necessary conditions): npos typestate on std::string search results with guard dominance, unsigned 'size()-c' underflow rule, feasible state-preserving-cycle search and zero-stride idiom on every loop, interprocedural division-by-parameter rule, throw-type typing, look-ahead re-test rule on counted loops, emptiness typestate on tokenizer token lists and on local containers (path search avoiding every filling statement); map::at presence rule; unsigned-variable loop bounds (also through a const local holding size() - c); argument-swap rule",
     level=("Necessary conditions of 'never crashes or hangs', decided for every input over the 13 anchored units: search results on caller-supplied text are tested against npos before positional use; "
            "no 'size() - c' bound/index on a possibly empty container without a guard (local containers: no path from the empty declaration to the access without a filling statement or a guard); a loop counter advanced a second time "
            "inside the body is re-tested before it indexes; the first token of a tokenizer is read only after a test that one exists; none of the loops can cycle without changing state and none advances only by the size of a possibly empty caller string; "
@@ -115,7 +115,7 @@ CLAIMED["C14"] = dict(
 
 CLAIMED["C11"] = dict(
     engine="E7+E3+E1",
-    technique="static analysis: sibling closed-form members extracted per guard valuation from the syntax tree and compared with a computer-algebra normaliser (inverse / derivative pairs, witness point required to refute); finite case analysis of init_ over the 8 bound configurations; chain-rule shape; must-pass forwarding; the wrapper's own accessors modelled in the chain-rule polynomial",
+    technique="static analysis: sibling closed-form members extracted per guard valuation from the syntax tree and compared with a computer-algebra normaliser (inverse / derivative pairs, witness point required to refute); finite case analysis of init_ over the 8 bound configurations; chain-rule shape; must-pass forwarding; the wrapper's own accessors modelled in the chain-rule expression (rational forms included)",
     level=("Static comparison of sibling formulas decides, for every value in each guard region: the half-line and interval transforms invert (unit scale for the half-line formula) and their first/second derivative "
            "members are the derivatives of the back-transform; the wrappers' derivative accessors have the chain-rule shape; each of the eight bound configurations gets exactly one transform of the right kind, "
            "orientation and inward-nudged bounds; fireParameterChanged syncs every coordinate, setParameters always forwards, getValue delegates, the constructor leaves the wrapped function untouched. "
@@ -131,7 +131,7 @@ CLAIMED["C19"] = dict(
 
 CLAIMED["C17"] = dict(
     engine="E5+E1",
-    technique="static analysis: writer/reader table agreement extracted from the syntax tree (family names, argument keys, parameter names), last-write rule for recorded separators in the tokenisers, alpha-equivalence of the three wildcard-matcher clones; argument/parameter name agreement at forwarding calls",
+    technique="static analysis: writer/reader table agreement extracted from the syntax tree (family names, argument keys, parameter names), last-write rule for recorded separators in the tokenisers, alpha-equivalence of the three wildcard-matcher clones; argument/parameter name agreement at forwarding calls; family names tested against getName() exist",
     level=("Narrow structural claim about the round-trip clauses: everything the distribution writer can emit (family names, 'key=' arguments) is understood by the reader and the reader's parameter keys exist; "
            "tokenisers record a separator only once the scan position is final and never store a continued token without its separator; the three copies of the '*' matcher are the same algorithm. Same-typed parameters (decimal separator, exponent marker) are forwarded to their own positions."),
     note=TB + "Not decided: numeric round trips, the decimal-number grammar (hand-written automaton), nested tokenising, glob semantics of the shared algorithm, variable-resolution fixed point, delimited-table round trip.")
@@ -146,10 +146,10 @@ CLAIMED["C10"] = dict(
 
 CLAIMED["C08"] = dict(
     engine="E1",
-    technique="static analysis of ONE clause (error signalling): structural discovery of sentinel-returning functions and their pass-through closure, call-site discipline (returned unchanged or tested before arithmetic, with reaching definitions), constant propagation of documented out-of-domain arguments through entry guards",
+    technique="static analysis of ONE clause (error signalling): structural discovery of sentinel-returning functions and their pass-through closure, call-site discipline (returned unchanged or tested before arithmetic, with reaching definitions), constant propagation of documented out-of-domain arguments through entry guards (also used to decide whether a caller's own entry guard excludes every argument for which its callee signals); ordering rule: no ordinary early return in front of a guard that signals on another parameter",
     level=("Only the last sentence of the property is claimed: out-of-domain arguments give the documented error signal. Decided for every call site and for the witness constants of the documented invalid regions: "
            "sentinels of incompleteGamma/qChisq/qNorm are never rescaled or shifted by callers, and the entry guards of qNorm, qChisq, incompleteGamma, pGamma, incompleteBeta reject negative/over-unit probabilities, "
-           "non-positive shapes and negative abscissae. Range, monotonicity, identities, inverse relation and accuracy are NOT claimed (not applicable to this technique)."),
+           "non-positive shapes and negative abscissae; the signal for one parameter does not depend on a shortcut taken for another. Range, monotonicity, identities, inverse relation and accuracy are NOT claimed (not applicable to this technique)."),
     note=TB + "All numerical clauses of C08 are outside static reach (coefficient values, series/continued-fraction switches, iteration counts); qNorm(1) returning the lower-tail sentinel is noted, not asserted.")
 
 CLAIMED["C04"] = dict(
@@ -172,7 +172,7 @@ CLAIMED["C05"] = dict(
 
 CLAIMED["C07"] = dict(
     engine="E2+E5+E8+E4",
-    technique="static analysis: symbolic index bounds of every VectorTools/NumTools template instantiation, vector operator and StatTools function with callee post-conditions (E2), argument/parameter name agreement at forwarding calls, shape rules of the max-shifted exponent sums and the pairwise log-sum (shift by the larger operand, infinite shift tested first, shift undone), rank/comparator agreement of the FDR routine, sortedness typestate for order statistics, shape of extremum searches, documented-exception agreement",
+    technique="static analysis: symbolic index bounds of every VectorTools/NumTools template instantiation, vector operator and StatTools function with callee post-conditions (E2), argument/parameter name agreement at forwarding calls, shape rules of the max-shifted exponent sums and the pairwise log-sum (shift by the larger operand, infinite shift tested first, shift undone), rank/comparator agreement of the FDR routine, sortedness typestate for order statistics, shape of extremum searches, documented-exception agreement; seed/traversal agreement of reductions (every element enters once)",
     level=("Structural clauses: no element access without a size test that throws first (own or a callee's) for every input length incl. empty and mismatched; forwarded flags keep their position; every exponential in the "
            "log-domain reductions is shifted by the maximum of the same data, never positive in logsum, guarded against inf - inf, and un-shifted at the end; the FDR divisor is the rank in the sorted order and agrees with the "
            "comparator; median reads positions n/2-1, n/2 of a fully sorted container; min/max/whichMin/whichMax throw on empty input, start at the first element, compare in the right direction, keep the first position. "
